@@ -1,6 +1,8 @@
 """C24 / C25 (partial): threads. A harness linked against a ThreadSanitizer build of the current tree (a) solves 2..8 random
 arithmetic instances with coefficients beyond the machine word at the same time, one solver / logic / config per thread, and
-compares every answer with the answer of the same instance alone (C24); (b) issues notifyStop / notifyGlobalStop from another
+compares every answer with the answer of the same instance alone, and runs seeded sequences of FastRational operations (lcm,
+gcd, division, rounding on 20-45 digit numbers) in 2..8 threads at once, comparing the digest of all results with the digest of
+the same sequence alone (C24); (b) issues notifyStop / notifyGlobalStop from another
 thread at a random moment of a check-sat and requires `unknown` or the answer of the undisturbed run (C25). Any
 ThreadSanitizer report is a violation."""
 import os, subprocess
@@ -18,6 +20,7 @@ def run(tier, pid="C24"):
     quick = tier == "quick"
     if pid == "C24":
         jobs = [("par", th, chk.seed * 100 + k, 6 if quick else 60) for k, th in enumerate([2, 3, 4, 6, 8] if quick else [2, 3, 4, 5, 6, 7, 8] * 4)]
+        jobs += [("num", th, chk.seed * 100 + 50 + k, 4 if quick else 40) for k, th in enumerate([2, 4, 8] if quick else [2, 3, 4, 6, 8] * 3)]
     else:
         jobs = [(m, 2, chk.seed * 100 + k, 25 if quick else 300) for k, m in enumerate(["stop", "gstop"] * (2 if quick else 8))]
     procs = []
